@@ -417,13 +417,13 @@ class TheoryAtomTransformer(_ast.Transformer):
 
         return x
 
-    def visit_TheoryAtomElement(self, x):
+    def visit_TheoryAtomElement(self, x, location):
         """
         Transforms one elementary theory elements without conditions into formulas.
         """
         # NOTE: in principle this condition can be relaxed...
         if len(x.terms) != 1 or len(x.condition) != 0:
-            raise RuntimeError("invalid temporal formula in rule head: {}".format(_tf.str_location(x.location)))
+            raise RuntimeError("invalid temporal formula in rule head: {}".format(_tf.str_location(location)))
         x.terms[0] = self(x.terms[0], (0, 0))
         return x
 
@@ -436,7 +436,7 @@ class TheoryAtomTransformer(_ast.Transformer):
         if x.guard is not None:
             raise RuntimeError("invalid temporal formula in rule head: {}".format(_tf.str_location(x.location)))
         x.term     = _ast.Function(x.term.location, "__tel_head", [time_parameter(x.term.location)], False)
-        x.elements = [self(elem) for elem in x.elements]
+        x.elements = [self(elem, x.location) for elem in x.elements]
         return x
 
 def transform_theory_atom(x):
